@@ -101,6 +101,8 @@ def run(ctx):
     hists = res["bad"]
     for h in hists:
         h.setdefault("race", "")
+        if not h.get("events"):
+            h["events"] = []
     fails = validate(ctx, hists) if hists else []
     if hists and not fails:
         raise Machinery("walker flagged histories that TLC accepts")
